@@ -13,11 +13,7 @@ Strip(w) == [k \in 1..Len(w) |-> [w[k] EXCEPT !.arr = ""]]
 RECURSIVE SumLen(_)
 SumLen(w) == IF w = <<>> THEN 0 ELSE Len(Head(w).ops) + SumLen(Tail(w))
 
-CheckRoundTrip(e) ==
-  /\ Bump(RTraces, 1) /\ Bump(RPipes, Len(e.w)) /\ Bump(ROps, SumLen(e.w))
-  /\ Bump(RMulti, Cardinality({<<k, i>> \in UNION {{<<k, i>> : i \in 1..Len(e.w[k].ops)} : k \in 1..Len(e.w)} : Len(e.w[k].ops[i].par) >= 2}))
-  /\ Bump(RMemZero, Cardinality({<<k, i>> \in UNION {{<<k, i>> : i \in 1..Len(e.w[k].ops)} : k \in 1..Len(e.w)} : e.w[k].ops[i].mem = "0.0"}))
-  /\ Bump(RMemUnset, Cardinality({<<k, i>> \in UNION {{<<k, i>> : i \in 1..Len(e.w[k].ops)} : k \in 1..Len(e.w)} : e.w[k].ops[i].mem = ""}))
+CheckWritten(e) ==
   \* what the writer wrote is the documented format of the workload it was given
   /\ Flag(e, "C14.WriterFormat", NoArr(e.rows) = NoArr(Unparse(e.w)) /\ ArrPattern(e.rows) = ArrPattern(Unparse(e.w)),
           <<"written", NoArr(e.rows), "format", NoArr(Unparse(e.w))>>)
@@ -27,6 +23,15 @@ CheckRoundTrip(e) ==
   /\ Flag(e, "C14.ArrivalText", e.backok => \A k \in 1..Len(e.back) : k <= Len(Groups(e.rows)) => e.back[k].arr = Groups(e.rows)[k][1].arr, "arrival values")
   \* read + write again reproduces every row apart from the arrival column
   /\ Flag(e, "C14.Reproduce", NoArr(e.rows2) = NoArr(e.rows) /\ ArrPattern(e.rows2) = ArrPattern(e.rows), <<"again", e.rows2, "first", e.rows>>)
+
+CheckRoundTrip(e) ==
+  /\ Bump(RTraces, 1) /\ Bump(RPipes, Len(e.w)) /\ Bump(ROps, SumLen(e.w))
+  /\ Bump(RMulti, Cardinality({<<k, i>> \in UNION {{<<k, i>> : i \in 1..Len(e.w[k].ops)} : k \in 1..Len(e.w)} : Len(e.w[k].ops[i].par) >= 2}))
+  /\ Bump(RMemZero, Cardinality({<<k, i>> \in UNION {{<<k, i>> : i \in 1..Len(e.w[k].ops)} : k \in 1..Len(e.w)} : e.w[k].ops[i].mem = "0.0"}))
+  /\ Bump(RMemUnset, Cardinality({<<k, i>> \in UNION {{<<k, i>> : i \in 1..Len(e.w[k].ops)} : k \in 1..Len(e.w)} : e.w[k].ops[i].mem = ""}))
+  \* every well-formed workload can be written
+  /\ Flag(e, "C14.WriterAccepts", e.wrote, <<"the writer raised on a well-formed workload", e.err>>)
+  /\ (e.wrote => CheckWritten(e))
 
 CheckMalformed(e) ==
   /\ Bump(RTraces, 1) /\ Bump(RMal, 1) /\ Bump(RMalRefused, IF e.refused THEN 1 ELSE 0)
